@@ -287,28 +287,28 @@ func alphabet(tier string) []Step {
 		return R(q)
 	}
 	a := []Step{
-		c("t1", "s1", "", "d1", "", "enabled"),
-		c("t1", "", "p1", "d1", "", "enabled"),
-		c("t2", "", "p1", "d1", "vx", ""),
-		c("t1", "", "p1", "", "", ""), // rejected: no dbrps
+		c("t", "s1", "", "d1", "", "enabled"),
+		c("t", "", "p", "d1", "", "enabled"),
+		c("t2", "", "p", "d1", "vx", ""),
+		c("t", "", "p", "", "", ""), // rejected: no dbrps
 		c("t2", "s1", "", "d1", "", ""),
-		u("t1", func(q *Req) { q.Script = "s2" }),
-		u("t1", func(q *Req) { q.Script = "sv" }),
-		u("t1", func(q *Req) { q.DBRPs = "d2" }),
-		u("t1", func(q *Req) { q.Vars = "vx" }),
-		u("t1", func(q *Req) { q.Status = "enabled" }),
-		u("t1", func(q *Req) { q.Status = "disabled" }),
-		u("t1", func(q *Req) { q.NewID = "t2" }),
-		u("t2", func(q *Req) { q.NewID = "t1" }),
-		u("t1", func(q *Req) { q.Tpl = "p1" }),
-		u("t1", func(q *Req) { q.Tpl = "p2" }),
-		R(Req{Op: "DeleteTask", ID: "t1"}),
-		R(Req{Op: "CreateTpl", ID: "p1", Script: "q1"}),
+		u("t", func(q *Req) { q.Script = "s2" }),
+		u("t", func(q *Req) { q.Script = "sv" }),
+		u("t", func(q *Req) { q.DBRPs = "d2" }),
+		u("t", func(q *Req) { q.Vars = "vx" }),
+		u("t", func(q *Req) { q.Status = "enabled" }),
+		u("t", func(q *Req) { q.Status = "disabled" }),
+		u("t", func(q *Req) { q.NewID = "t2" }),
+		u("t2", func(q *Req) { q.NewID = "t" }),
+		u("t", func(q *Req) { q.Tpl = "p" }),
+		u("t", func(q *Req) { q.Tpl = "p2" }),
+		R(Req{Op: "DeleteTask", ID: "t"}),
+		R(Req{Op: "CreateTpl", ID: "p", Script: "q1"}),
 		R(Req{Op: "CreateTpl", ID: "p2", Script: "qv"}),
-		R(Req{Op: "UpdateTpl", ID: "p1", Script: "q2"}),
-		R(Req{Op: "UpdateTpl", ID: "p1", Script: "qv"}),
-		R(Req{Op: "UpdateTpl", ID: "p1", NewID: "p2"}),
-		R(Req{Op: "DeleteTpl", ID: "p1"}),
+		R(Req{Op: "UpdateTpl", ID: "p", Script: "q2"}),
+		R(Req{Op: "UpdateTpl", ID: "p", Script: "qv"}),
+		R(Req{Op: "UpdateTpl", ID: "p", NewID: "p2"}),
+		R(Req{Op: "DeleteTpl", ID: "p"}),
 		restartStep,
 	}
 	if tier == "thorough" {
@@ -316,12 +316,12 @@ func alphabet(tier string) []Step {
 			c("t2", "sf", "", "d1", "", "enabled"),
 			c("t2", "sb", "", "d1", "", "enabled"),
 			u("t2", func(q *Req) { q.DBRPs = "d2" }),
-			c("t1", "sx", "", "d1", "", ""),
+			c("t", "sx", "", "d1", "", ""),
 			u("t2", func(q *Req) { q.Status = "enabled" }),
-			u("t2", func(q *Req) { q.Status = "disabled"; q.NewID = "t1" }),
+			u("t2", func(q *Req) { q.Status = "disabled"; q.NewID = "t" }),
 			R(Req{Op: "DeleteTask", ID: "t2"}),
-			R(Req{Op: "UpdateTpl", ID: "p1", Script: "qf"}),
-			R(Req{Op: "UpdateTpl", ID: "p2", Script: "q1", NewID: "p1"}),
+			R(Req{Op: "UpdateTpl", ID: "p", Script: "qf"}),
+			R(Req{Op: "UpdateTpl", ID: "p2", Script: "q1", NewID: "p"}),
 			Step{Kind: "env", Up: false},
 			Step{Kind: "env", Up: true},
 		)
@@ -342,48 +342,52 @@ func scenarios() [][]Step {
 	cg := func(k int) Step { return Step{Kind: "crashgo", K: k} }
 	return [][]Step{
 		// orphan association of a rejected create, then a foreign task under the same id
-		{ct("p1", "q1"), c("t1", "", "p1", "", "", ""), c("t1", "s1", "", "d1", "", ""), ut("p1", "q2", "")},
+		{ct("p", "q1"), c("t", "", "p", "", "", ""), c("t", "s1", "", "d1", "", ""), ut("p", "q2", "")},
 		// template switch, then both templates updated
-		{ct("p1", "q1"), ct("p2", "q2"), c("t1", "", "p1", "d1", "", ""), up(Req{ID: "t1", Tpl: "p2"}), ut("p2", "qf", ""), ut("p1", "q2", "")},
+		{ct("p", "q1"), ct("p2", "q2"), c("t", "", "p", "d1", "", ""), up(Req{ID: "t", Tpl: "p2"}), ut("p2", "qf", ""), ut("p", "q2", "")},
 		// template update failing on the second task
-		{ct("p1", "q1"), c("t1", "", "p1", "d1", "vx", "enabled"), c("t2", "", "p1", "d1", "", "enabled"), ut("p1", "qv", ""), up(Req{ID: "t2", Status: "disabled"}), restartStep},
+		{ct("p", "q1"), c("t", "", "p", "d1", "vx", "enabled"), c("t2", "", "p", "d1", "", "enabled"), ut("p", "qv", ""), up(Req{ID: "t2", Status: "disabled"}), restartStep},
 		// ... on the first task, with a disabled second one
-		{ct("p1", "q1"), c("t1", "", "p1", "d1", "", "enabled"), c("t2", "", "p1", "d1", "", ""), ut("p1", "qv", ""), restartStep},
+		{ct("p", "q1"), c("t", "", "p", "d1", "", "enabled"), c("t2", "", "p", "d1", "", ""), ut("p", "qv", ""), restartStep},
 		// template rename with a failing task
-		{ct("p1", "q1"), c("t1", "", "p1", "d1", "vx", "enabled"), c("t2", "", "p1", "d1", "", "enabled"), ut("p1", "qv", "p2"), up(Req{ID: "t1", Status: "disabled"}), ut("p1", "q2", "")},
+		{ct("p", "q1"), c("t", "", "p", "d1", "vx", "enabled"), c("t2", "", "p", "d1", "", "enabled"), ut("p", "qv", "p2"), up(Req{ID: "t", Status: "disabled"}), ut("p", "q2", "")},
 		// template rename, accepted
-		{ct("p1", "q1"), c("t1", "", "p1", "d1", "vx", "enabled"), c("t2", "", "p1", "d1", "", ""), ut("p1", "q2", "p2"), ut("p2", "qv", ""), restartStep},
+		{ct("p", "q1"), c("t", "", "p", "d1", "vx", "enabled"), c("t2", "", "p", "d1", "", ""), ut("p", "q2", "p2"), ut("p2", "qv", ""), restartStep},
 		// rename while enabled, from a template, then template update
-		{ct("p1", "q1"), c("t1", "", "p1", "d1", "", "enabled"), up(Req{ID: "t1", NewID: "t2"}), ut("p1", "q2", ""), restartStep},
+		{ct("p", "q1"), c("t", "", "p", "d1", "", "enabled"), up(Req{ID: "t", NewID: "t2"}), ut("p", "q2", ""), restartStep},
 		// rename onto an existing task of the same template
-		{ct("p1", "q1"), c("t1", "", "p1", "d1", "", "enabled"), c("t2", "", "p1", "d1", "", ""), up(Req{ID: "t1", NewID: "t2"}), ut("p1", "q2", "")},
+		{ct("p", "q1"), c("t", "", "p", "d1", "", "enabled"), c("t2", "", "p", "d1", "", ""), up(Req{ID: "t", NewID: "t2"}), ut("p", "q2", "")},
 		// failed update followed by restart
-		{c("t1", "s1", "", "d1", "", "enabled"), up(Req{ID: "t1", Script: "sx"}), restartStep, up(Req{ID: "t1", Script: "sv"}), up(Req{ID: "t1", Script: "sv", Vars: "vy"}), restartStep},
+		{c("t", "s1", "", "d1", "", "enabled"), up(Req{ID: "t", Script: "sx"}), restartStep, up(Req{ID: "t", Script: "sv"}), up(Req{ID: "t", Script: "sv", Vars: "vy"}), restartStep},
 		// start failures: created while the cluster is down, restart while up / down
-		{Step{Kind: "env", Up: false}, c("t1", "sf", "", "d1", "", "enabled"), restartStep, Step{Kind: "env", Up: true}, up(Req{ID: "t1", Status: "enabled"}), restartStep, Step{Kind: "env", Up: false}, restartStep},
-		{ct("p1", "q1"), c("t1", "", "p1", "d1", "", "enabled"), c("t2", "", "p1", "d1", "", "enabled"), Step{Kind: "env", Up: false}, ut("p1", "qf", ""), Step{Kind: "env", Up: true}, ut("p1", "qf", ""), Step{Kind: "env", Up: false}, restartStep},
+		{Step{Kind: "env", Up: false}, c("t", "sf", "", "d1", "", "enabled"), restartStep, Step{Kind: "env", Up: true}, up(Req{ID: "t", Status: "enabled"}), restartStep, Step{Kind: "env", Up: false}, restartStep},
+		{ct("p", "q1"), c("t", "", "p", "d1", "", "enabled"), c("t2", "", "p", "d1", "", "enabled"), Step{Kind: "env", Up: false}, ut("p", "qf", ""), Step{Kind: "env", Up: true}, ut("p", "qf", ""), Step{Kind: "env", Up: false}, restartStep},
 		// batch task whose query is outside its dbrps: the definition is accepted, the start fails
-		{c("t1", "sb", "", "d2", "", "enabled"), up(Req{ID: "t1", DBRPs: "d1"}), restartStep, up(Req{ID: "t1", DBRPs: "d2"}), up(Req{ID: "t1", Status: "disabled"}), up(Req{ID: "t1", Status: "enabled"}), restartStep, R(Req{Op: "DeleteTask", ID: "t1"})},
-		{c("t1", "sb", "", "d1", "", "enabled"), up(Req{ID: "t1", DBRPs: "d2"}), up(Req{ID: "t1", NewID: "t2"}), restartStep},
+		{c("t", "sb", "", "d2", "", "enabled"), up(Req{ID: "t", DBRPs: "d1"}), restartStep, up(Req{ID: "t", DBRPs: "d2"}), up(Req{ID: "t", Status: "disabled"}), up(Req{ID: "t", Status: "enabled"}), restartStep, R(Req{Op: "DeleteTask", ID: "t"})},
+		{c("t", "sb", "", "d1", "", "enabled"), up(Req{ID: "t", DBRPs: "d2"}), up(Req{ID: "t", NewID: "t2"}), restartStep},
+		// template ids where one is a prefix of the other: deleting / renaming one must not touch the other's tasks
+		{ct("p", "q1"), ct("p2", "q2"), c("t", "", "p2", "d1", "", "enabled"), c("t2", "", "p", "d1", "", ""), R(Req{Op: "DeleteTpl", ID: "p"}), ut("p2", "q1", ""), restartStep},
+		{ct("p", "q1"), ct("p2", "q2"), c("t", "", "p2", "d1", "", "enabled"), c("t2", "", "p", "d1", "", ""), R(Req{Op: "DeleteTpl", ID: "p2"}), ut("p", "q2", ""), restartStep},
+		{ct("p", "q1"), c("t", "", "p", "d1", "", "enabled"), c("t2", "", "p", "d1", "", ""), ut("p", "", "p2"), ut("p2", "q2", ""), ut("p2", "", "p"), ut("p", "q1", "")},
 		// delete and re-create template: documented orphans
-		{ct("p1", "q1"), c("t1", "", "p1", "d1", "", "enabled"), R(Req{Op: "DeleteTpl", ID: "p1"}), up(Req{ID: "t1", Status: "disabled"}), ct("p1", "q2"), up(Req{ID: "t1", Status: "disabled"}), ut("p1", "q1", "")},
+		{ct("p", "q1"), c("t", "", "p", "d1", "", "enabled"), R(Req{Op: "DeleteTpl", ID: "p"}), up(Req{ID: "t", Status: "disabled"}), ct("p", "q2"), up(Req{ID: "t", Status: "disabled"}), ut("p", "q1", "")},
 		// --- crash inside a request, restart on that copy, and go on ---
 		// association written, task not yet: a foreign task under that id must not follow the template
-		{ct("p1", "q1"), c("t1", "", "p1", "d1", "", ""), cg(1), c("t1", "s1", "", "d1", "", "enabled"), ut("p1", "q2", ""), restartStep},
+		{ct("p", "q1"), c("t", "", "p", "d1", "", ""), cg(1), c("t", "s1", "", "d1", "", "enabled"), ut("p", "q2", ""), restartStep},
 		// templated task deleted, association not yet; then a plain task under the same id
-		{ct("p1", "q1"), c("t1", "", "p1", "d1", "", "enabled"), R(Req{Op: "DeleteTask", ID: "t1"}), cg(2), c("t1", "s1", "", "d1", "", ""), ut("p1", "q2", "")},
+		{ct("p", "q1"), c("t", "", "p", "d1", "", "enabled"), R(Req{Op: "DeleteTask", ID: "t"}), cg(2), c("t", "s1", "", "d1", "", ""), ut("p", "q2", "")},
 		// rename cut between create and delete: both ids; clean up by hand
-		{c("t1", "s1", "", "d1", "", "enabled"), up(Req{ID: "t1", NewID: "t2"}), cg(1), R(Req{Op: "DeleteTask", ID: "t1"}), restartStep, up(Req{ID: "t2", Status: "disabled"})},
+		{c("t", "s1", "", "d1", "", "enabled"), up(Req{ID: "t", NewID: "t2"}), cg(1), R(Req{Op: "DeleteTask", ID: "t"}), restartStep, up(Req{ID: "t2", Status: "disabled"})},
 		// templated rename cut after the new association
-		{ct("p1", "q1"), c("t1", "", "p1", "d1", "", "enabled"), up(Req{ID: "t1", NewID: "t2"}), cg(1), ut("p1", "q2", ""), up(Req{ID: "t1", NewID: "t2"}), ut("p1", "q1", "")},
+		{ct("p", "q1"), c("t", "", "p", "d1", "", "enabled"), up(Req{ID: "t", NewID: "t2"}), cg(1), ut("p", "q2", ""), up(Req{ID: "t", NewID: "t2"}), ut("p", "q1", "")},
 		// template switch cut after the task was written: old association still there
-		{ct("p1", "q1"), ct("p2", "q2"), c("t1", "", "p1", "d1", "", ""), up(Req{ID: "t1", Tpl: "p2"}), cg(2), ut("p1", "qf", ""), ut("p2", "q1", "")},
+		{ct("p", "q1"), ct("p2", "q2"), c("t", "", "p", "d1", "", ""), up(Req{ID: "t", Tpl: "p2"}), cg(2), ut("p", "qf", ""), ut("p2", "q1", "")},
 		// template update cut after the first task; issued again afterwards
-		{ct("p1", "q1"), c("t1", "", "p1", "d1", "", "enabled"), c("t2", "", "p1", "d1", "", "enabled"), ut("p1", "q2", ""), cg(2), ut("p1", "q2", ""), restartStep},
+		{ct("p", "q1"), c("t", "", "p", "d1", "", "enabled"), c("t2", "", "p", "d1", "", "enabled"), ut("p", "q2", ""), cg(2), ut("p", "q2", ""), restartStep},
 		// template rename cut before the template itself was saved
-		{ct("p1", "q1"), c("t1", "", "p1", "d1", "", "enabled"), ut("p1", "q2", "p2"), cg(3), up(Req{ID: "t1", Status: "disabled"}), ut("p1", "q2", "p2"), up(Req{ID: "t1", Status: "disabled"})},
+		{ct("p", "q1"), c("t", "", "p", "d1", "", "enabled"), ut("p", "q2", "p2"), cg(3), up(Req{ID: "t", Status: "disabled"}), ut("p", "q2", "p2"), up(Req{ID: "t", Status: "disabled"})},
 		// delete of templated enabled task, re-create plain under the same id
-		{ct("p1", "q1"), c("t1", "", "p1", "d1", "", "enabled"), R(Req{Op: "DeleteTask", ID: "t1"}), c("t1", "s1", "", "d1", "", "enabled"), ut("p1", "q2", "")},
+		{ct("p", "q1"), c("t", "", "p", "d1", "", "enabled"), R(Req{Op: "DeleteTask", ID: "t"}), c("t", "s1", "", "d1", "", "enabled"), ut("p", "q2", "")},
 	}
 }
 
@@ -555,6 +559,18 @@ func Run(r *rt.Run) error {
 			stats["scenario_prefixes"]++
 			stats["crash_points"] += o.nsnaps
 		}
+	}
+	// more tasks than one page of Open() (which lists "*" in pages of 100) and of the default list limit
+	for i, nb := range []int{101 + r.Rand.Intn(30), 201 + r.Rand.Intn(20)} {
+		if i == 1 && !r.Thorough() {
+			break
+		}
+		if hangs.Load() >= maxHangs {
+			stats["skipped_after_hangs"]++
+			continue
+		}
+		emit(t, rn.runBulk(nb))
+		stats["bulk_histories"]++
 	}
 	// seeded random longer histories over the full alphabet, with crash-and-continue
 	full := alphabet("thorough")
@@ -784,4 +800,79 @@ func (rn *runner) runScript(h []Step) outcome {
 	}
 	o.evs = s.evs
 	return o
+}
+
+// runBulk: n minimal tasks b000.. created through the API (every seventh one disabled), then a clean
+// restart.  Logged: the created ids, and after the restart the ids listed page by page (offset/limit
+// 100, as a client pages), the ids of one unpaged request with a large limit, and the ids executing.
+func (rn *runner) runBulk(n int) outcome {
+	s, err := rn.begin(true)
+	if err != nil {
+		rt.Fatalf("open world: %v", err)
+	}
+	defer s.end()
+	var created, enabled []any
+	rejected := 0
+	for i := 0; i < n; i++ {
+		id := fmt.Sprintf("b%03d", i)
+		st := "enabled"
+		if i%7 == 3 {
+			st = "disabled"
+		}
+		if code := s.w.do(Req{Op: "CreateTask", ID: id, Script: "s1", DBRPs: "d1", Status: st}); code != 200 {
+			rejected++
+			continue
+		}
+		created = append(created, id)
+		if st == "enabled" {
+			enabled = append(enabled, id)
+		}
+	}
+	obs := func() rt.M {
+		var paged []any
+		pageErr := ""
+		for off := 0; ; off += 100 {
+			ids, err := s.w.listIDs(fmt.Sprintf("/tasks?offset=%d&limit=100", off))
+			if err != nil {
+				pageErr = err.Error()
+				break
+			}
+			for _, id := range ids {
+				paged = append(paged, id)
+			}
+			if len(ids) < 100 {
+				break
+			}
+		}
+		var all, exec []any
+		ids, err := s.w.listIDs("/tasks?limit=100000")
+		if err != nil {
+			pageErr = err.Error()
+		}
+		for _, id := range ids {
+			all = append(all, id)
+		}
+		for _, id := range created {
+			if s.w.tm.IsExecuting(id.(string)) {
+				exec = append(exec, id)
+			}
+		}
+		return rt.M{"paged": paged, "all": all, "exec": exec, "err": pageErr}
+	}
+	before := obs()
+	if !s.w.shutdown() {
+		np := rn.tmp("h")
+		if err := s.w.snap.Snapshot(np); err != nil {
+			rt.Fatalf("snapshot of a hung world: %v", err)
+		}
+		s.path = np
+	}
+	w, err := openWorld(s.path, true)
+	if err != nil {
+		rt.Fatalf("restart: %v", err)
+	}
+	s.w = w
+	after := obs()
+	s.evs = append(s.evs, ev{"Bulk", rt.M{"n": n, "rejected": rejected, "created": created, "enabled": enabled, "before": before, "after": after}})
+	return outcome{evs: s.evs}
 }
